@@ -1,6 +1,7 @@
 import Dmn.Model.Value
 import Dmn.Model.Ops
 import Dmn.Model.Outcome
+import Dmn.Model.DecString
 
 /-!
 # The built-in functions (`feel-evaluator/src/bifs/core.rs`)
@@ -960,6 +961,12 @@ def intText (d : Dec) : Option (List Char) :=
   if d.exp < 0 then none
   else some ((if d.neg then ['-'] else []) ++ (Nat.toDigits 10 d.coeff) ++ List.replicate d.exp.toNat '0')
 
+/-- `Display for FeelNumber` (`number.rs:357`): the plain rendering.  `D128.plainSpec` is what the printer model of
+C07 (`D128.plain`: `decQuadToString`, then `scientific_to_plain`) is proved to print for every well-formed number
+(`D128.plain_total`, `Props/C07.lean`): sign, digits, the exponent as trailing zeros or as the place of the period,
+never an exponent part; trailing fraction zeros are kept (`1.50`). -/
+def numText (d : Dec) : List Char := D128.plainSpec ⟨d.neg, d.coeff, d.exp⟩
+
 def joinSep (sep : List Char) : List (List Char) → List Char
   | [] => []
   | [x] => x
@@ -973,7 +980,7 @@ mutual
 def displayValue : Value → Option (List Char)
   | .null => some "null".toList
   | .bool b => some (if b then "true".toList else "false".toList)
-  | .num d => intText d
+  | .num d => some (numText d)
   | .str s => some (quote false s.toList)
   | .list vs => (displayItems vs).map (fun xs => '[' :: joinSep [',', ' '] xs ++ [']'])
   | .ctx es => (displayEntries es).map (fun xs => '{' :: joinSep [',', ' '] xs ++ ['}'])
@@ -1021,7 +1028,7 @@ def feelStringEntries : List (String × Value) → Option (List (List Char))
     | _, _ => none
 end
 
-/-- `core::string` (`core.rs:983`); `none` where the text needs the number / temporal printers -/
+/-- `core::string` (`core.rs:983`); `none` where the text needs the temporal printers (C14), for ranges and functions -/
 def stringValue (value : Value) : Option Value :=
   match value with
   | .null => some .null
